@@ -25,6 +25,8 @@ func propC03() Property {
 			{ID: "C03-R5", Desc: "gap-fill field binding and placement", Min: 6, Run: c03R5},
 			{ID: "C03-R6", Desc: "the end-of-body mark moves only over body fields", Min: 3, Run: c03R6},
 			{ID: "C03-R7", Desc: "the whole reply to a ResendRequest is sent under the resend lock (= C02-R5)", Min: 3, Run: c02R5},
+			{ID: "C03-R11", Desc: "the resend of a stored message is agreed only when ToApp returned nil", Min: 1, Run: c03R11},
+			{ID: "C03-R10", Desc: "sql store: what a send stores is keyed like what a replay reads (= C16-R14)", Min: 40, Run: c16R14},
 			{ID: "C03-R9", Desc: "the start-of-body mark stops at the first body field", Min: 2, Run: c03R9},
 			{ID: "C03-R8", Desc: "every store iterates the whole requested range; file index appended at its end (= C16-R3, C16-R13, C17-R2)", Min: 4, Run: func(c *Ctx) { c16R3(c); c16R13(c); c17R2(c) }},
 		},
@@ -526,6 +528,44 @@ func c03R6(c *Ctx) {
 			c.Check(before["marked"], FuncName(fn), p.InstrPos(cl.(ssa.Instruction)), "body-field-moves-mark", "a field filed into the body has moved the end-of-body mark past itself",
 				"a field is filed into the Body on a path on which the end-of-body mark was not moved past it after its extraction: when it is the last field of the body, bodyBytes ends before it and a replay built from bodyBytes silently loses the field")
 		}
+	}
+	// … and a field that opens a new group window (the NumInGroup field of a group that follows the
+	// one being parsed) has moved the mark as well: its window is filed later as a whole
+	for fn := range fns {
+		mf := &MustFlow{Fn: fn, Transfer: func(in ssa.Instruction, s Set) {
+			if isExtract(in) {
+				delete(s, "marked")
+				s["extracted"] = true
+				return
+			}
+			if st, ok := in.(*ssa.Store); ok && fieldAddrOf(st.Addr, fTrailer) != nil {
+				if ld, ok := stripConv(st.Val).(*ssa.UnOp); ok && fieldAddrOf(ld.X, fRaw) != nil {
+					s["marked"] = true
+				}
+			}
+		}}
+		ForEachInstr(fn, func(in ssa.Instruction) {
+			sl, ok := in.(*ssa.Slice)
+			if !ok || !p.Origin(sl.X).IsField(fFields) || sl.Low == nil || sl.High == nil {
+				return
+			}
+			opensWindow := false
+			for _, r := range *sl.Referrers() {
+				if _, isPhi := r.(*ssa.Phi); isPhi {
+					opensWindow = true
+				}
+			}
+			if !opensWindow {
+				return
+			}
+			before := mf.Before(in)
+			if !before["extracted"] {
+				return
+			}
+			nAdd++
+			c.Check(before["marked"], FuncName(fn), p.InstrPos(in), "window-start-moves-mark", "a field that opens a new group window has moved the end-of-body mark past itself",
+				"a field opens a new group window on a path on which the end-of-body mark was not moved past it after its extraction: when that group is empty and last in the body (a zero count), bodyBytes ends before it and a replay built from bodyBytes silently loses the group")
+		})
 	}
 	if nAdd == 0 {
 		c.Violation("", "-", "no-body-adds", "no extracted field is filed into the Body in the functions that maintain the end-of-body mark")
